@@ -17,6 +17,8 @@ class TestService:
         h = 7
         for c in bytes(buf.data):
             h = (h * 131 + c + 1) & 0x7FFFFFFF
+        if h & 7 == 0:
+            h = 0
         bits = {'u8': 8, 'i8': 8, 'u16': 16, 'i16': 16, 'u32': 32, 'i32': 32, 'u64': 64, 'i64': 64}[self.typ]
         v = h & ((1 << bits) - 1)
         if self.typ[0] == 'i' and v >= 1 << (bits - 1):
